@@ -4,6 +4,7 @@ package xmpp
 // equals the number of stanzas received on the stream-managed session; nonzas are never counted.
 
 import (
+	"context"
 	"fmt"
 	"math/rand"
 	"strconv"
@@ -12,6 +13,7 @@ import (
 	"testing"
 	"time"
 
+	"gosrc.io/xmpp/stanza"
 	"vfkit"
 )
 
@@ -21,6 +23,12 @@ type vfC09Case struct {
 	// Refused[k]: the resumption attempted on connection k is refused with <failed/>; the client binds and enables
 	// stream management again - a new stream-managed session, which counts from zero
 	Refused []bool `json:"refused,omitempty"`
+	// EnabledResume: resume attribute of the first <enabled/> ("true", "false" or "": absent). Stream management is
+	// active either way; without "true" the session is simply not resumable (single-connection histories only).
+	EnabledResume string `json:"enabled_resume"`
+	// Pending[k]: ids of SendIQ requests the application has outstanding on connection k; the history of that
+	// connection contains their results, which are stanzas like any other
+	Pending [][]string `json:"pending,omitempty"`
 }
 
 type vfC09Obs struct {
@@ -36,8 +44,33 @@ func vfC09Run(run *vfkit.Run, cs *vfC09Case) {
 	r := rand.New(rand.NewSource(cs.Seed))
 	nconn := len(cs.Segments)
 	connDone := make([]chan struct{}, nconn)
+	goSend := make([]chan struct{}, nconn)
 	for i := range connDone {
 		connDone[i] = make(chan struct{})
+		goSend[i] = make(chan struct{})
+	}
+	var cancels []context.CancelFunc
+	defer func() {
+		for _, f := range cancels {
+			f()
+		}
+	}()
+	sendPending := func(c *Client, k int) {
+		if k < len(cs.Pending) {
+			for _, id := range cs.Pending[k] {
+				iq, _ := stanza.NewIQ(stanza.Attrs{Type: "get", Id: id, To: "srv"})
+				iq.Payload = &stanza.Version{}
+				ctx, cancel := context.WithCancel(context.Background())
+				cancels = append(cancels, cancel)
+				if ch, err := c.SendIQ(ctx, iq); err == nil {
+					go func() {
+						for range ch {
+						}
+					}()
+				}
+			}
+		}
+		close(goSend[k])
 	}
 	peer := vfNewPeer(func(pc *vfPeerConn) {
 		k := pc.N
@@ -47,6 +80,12 @@ func vfC09Run(run *vfkit.Run, cs *vfC09Case) {
 		defer close(connDone[k])
 		refused := k < len(cs.Refused) && cs.Refused[k]
 		o := &vfNeg{SM: true, ExpectEnable: k == 0 || refused, SMResume: "true", SMID: fmt.Sprintf("sess-%d", k+1), ExpectPresence: k == 0, Bind: true, Resume: "resumed"}
+		if k == 0 && cs.EnabledResume != "" {
+			o.SMResume = cs.EnabledResume
+			if o.SMResume == "absent" {
+				o.SMResume = ""
+			}
+		}
 		if refused {
 			o.Resume = "failed"
 		}
@@ -70,6 +109,7 @@ func vfC09Run(run *vfkit.Run, cs *vfC09Case) {
 				}
 			}
 		}
+		<-goSend[k] // the application has issued its SendIQ requests on this connection
 		var sb strings.Builder
 		nr := 0
 		for _, e := range cs.Segments[k] {
@@ -101,6 +141,15 @@ func vfC09Run(run *vfkit.Run, cs *vfC09Case) {
 		pc.Close() // FIN: the client loses the connection
 	})
 	defer peer.Stop()
+	defer func() { // release peer handlers that still wait for the application
+		for _, ch := range goSend {
+			select {
+			case <-ch:
+			default:
+				close(ch)
+			}
+		}
+	}()
 	c, cobs, err := vfNewClient(vfClientOpt{Addr: peer.Addr(), Insecure: true, SM: true, SMResume: true}, nil)
 	if err != nil {
 		run.Inconclusive("newclient")
@@ -112,6 +161,7 @@ func vfC09Run(run *vfkit.Run, cs *vfC09Case) {
 		run.Note(err.Error())
 		return
 	}
+	sendPending(c, 0)
 	for k := 0; k < nconn; k++ {
 		select {
 		case <-connDone[k]:
@@ -152,6 +202,7 @@ func vfC09Run(run *vfkit.Run, cs *vfC09Case) {
 				go c.Disconnect()
 				return
 			}
+			sendPending(c, k+1)
 		}
 	}
 	go c.Disconnect()
@@ -212,6 +263,12 @@ func vfC09Run(run *vfkit.Run, cs *vfC09Case) {
 			}
 		}
 	}
+	if cs.EnabledResume != "true" {
+		run.Count("sessions_without_resumption", 1)
+	}
+	for _, p := range cs.Pending {
+		run.Count("responses_to_pending_requests", int64(len(p)))
+	}
 	run.Count("stanzas_counted", int64(total))
 	run.Nontrivial(fmt.Sprintf("%d|%d|%d", cs.Seed, nconn, total))
 }
@@ -242,8 +299,22 @@ func TestVf_C09(t *testing.T) {
 				if c%3 == 0 {
 					nseg = 2 + r.Intn(3)
 				}
+				cs.EnabledResume = "true"
+				if nseg == 1 && r.Intn(3) == 0 {
+					cs.EnabledResume = []string{"false", "absent"}[r.Intn(2)]
+				}
 				for s := 0; s < nseg; s++ {
-					cs.Segments = append(cs.Segments, vfGenInbound(r, r.Intn(maxLen), "", true, fmt.Sprintf("h%d-%d", c, s)))
+					seg := vfGenInbound(r, r.Intn(maxLen), "", true, fmt.Sprintf("h%d-%d", c, s))
+					var pend []string
+					for q := r.Intn(4); q > 0; q-- {
+						id := fmt.Sprintf("q%d-%d-%d", c, s, q)
+						pend = append(pend, id)
+						el := vfInElem{Kind: "iq", Id: id, Stanza: true, XML: fmt.Sprintf(`<iq type="result" id="%s" from="srv"><query xmlns="jabber:iq:version"><name>n</name></query></iq>`, id)}
+						p := r.Intn(len(seg) + 1)
+						seg = append(seg[:p], append([]vfInElem{el}, seg[p:]...)...)
+					}
+					cs.Segments = append(cs.Segments, seg)
+					cs.Pending = append(cs.Pending, pend)
 					cs.Refused = append(cs.Refused, s > 0 && r.Intn(3) == 0)
 				}
 				run.Case(cs)
